@@ -24,6 +24,9 @@ pub enum HostOp {
         next: Workspace,
         kind: String,
         full: bool,
+        /// Earlier texts for some files, listed in the same `Change` before the final ones
+        /// (what the server builds for a didChange with several content changes).
+        via: Vec<(u32, String)>,
     },
     Compare {
         queries: Vec<Query>,
@@ -55,7 +58,8 @@ impl Plan {
             "workload": self.ops.iter().map(|op| match op {
                 HostOp::Spawn{name, queries, hold, crash_at} => json!({"op":"spawn","name":name,
                     "queries": queries.iter().map(|q| q.to_json()).collect::<Vec<_>>(), "hold": hold, "crash_at": crash_at}),
-                HostOp::Apply{next, kind, full} => json!({"op":"apply","kind":kind,"full":full,"next":next.to_json()}),
+                HostOp::Apply{next, kind, full, via} => json!({"op":"apply","kind":kind,"full":full,"next":next.to_json(),
+                    "via": via.iter().map(|(f, t)| json!([f, t])).collect::<Vec<_>>()}),
                 HostOp::Compare{queries} => json!({"op":"compare","queries": queries.iter().map(|q| q.to_json()).collect::<Vec<_>>()}),
                 HostOp::Yield => json!({"op":"yield"}),
             }).collect::<Vec<_>>(),
@@ -93,6 +97,9 @@ impl Plan {
                         next: Workspace::from_json(&o["next"]),
                         kind: o["kind"].as_str().unwrap_or("").to_string(),
                         full: o["full"].as_bool().unwrap_or(false),
+                        via: o["via"].as_array().map_or(Vec::new(), |a| {
+                            a.iter().map(|e| (e[0].as_u64().unwrap_or(0) as u32, e[1].as_str().unwrap_or("").to_string())).collect()
+                        }),
                     },
                     "compare" => HostOp::Compare {
                         queries: qs(&o["queries"]),
@@ -152,6 +159,28 @@ fn draw_queries(rng: &mut Rng, w: &Workspace, lo: usize, hi: usize, pool: &mut V
     v
 }
 
+/// Now and then a change lists a file more than once: earlier texts first, the final text last.
+fn gen_via(rng: &mut Rng, cur: &Workspace, next: &Workspace) -> Vec<(u32, String)> {
+    if !rng.chance(1, 5) {
+        return Vec::new();
+    }
+    let mods: Vec<u32> = cur.module_files().into_iter().filter(|f| next.files.contains_key(f)).collect();
+    if mods.is_empty() {
+        return Vec::new();
+    }
+    let mut via = Vec::new();
+    for _ in 0..rng.range(1, 2) {
+        let f = *rng.pick(&mods);
+        let text = match rng.below(3) {
+            0 => String::new(),
+            1 => crate::gen::gen_module(rng, &[]).0,
+            _ => crate::gen::mutate(rng, &cur.files[&f].1).0,
+        };
+        via.push((f, text));
+    }
+    via
+}
+
 pub fn gen_plan(property: &str, seed: u64, run: u64, thorough: bool) -> Plan {
     let run_seed = mix(mix(seed, run), if property == "C11" { 11 } else { 12 });
     let mut rng = Rng::new(run_seed);
@@ -197,10 +226,12 @@ pub fn gen_plan(property: &str, seed: u64, run: u64, thorough: bool) -> Plan {
                 spawn(&mut rng, &cur, &mut ops, &mut pool, 4);
             }
             let step = gen_change(&mut rng, &cur);
+            let via = gen_via(&mut rng, &cur, &step.next);
             ops.push(HostOp::Apply {
                 next: step.next.clone(),
                 kind: step.kind.to_string(),
                 full: rng.chance(1, 10),
+                via,
             });
             cur = step.next;
             if rng.chance(3, 4) {
@@ -222,10 +253,12 @@ pub fn gen_plan(property: &str, seed: u64, run: u64, thorough: bool) -> Plan {
                 }
             }
             let step = gen_change(&mut rng, &cur);
+            let via = gen_via(&mut rng, &cur, &step.next);
             ops.push(HostOp::Apply {
                 next: step.next.clone(),
                 kind: step.kind.to_string(),
                 full: rng.chance(1, 10),
+                via,
             });
             cur = step.next;
         }
@@ -523,8 +556,11 @@ pub fn run_plan(plan: &Plan, keep_log: bool) -> Outcome {
     };
     stats.degraded_free_run = degraded;
     for op in &plan.ops {
-        if let HostOp::Apply { kind, .. } = op {
+        if let HostOp::Apply { kind, via, .. } = op {
             *stats.change_kinds.entry(kind.clone()).or_insert(0) += 1;
+            if !via.is_empty() {
+                *stats.change_kinds.entry("batch.same_file_twice".into()).or_insert(0) += 1;
+            }
         }
     }
 
@@ -574,8 +610,8 @@ fn host_main(core: &Arc<Core>, plan: &Plan, versions: &Arc<Vec<Workspace>>, shar
         hooks::named("host:op");
         match op {
             HostOp::Yield => {}
-            HostOp::Apply { next, full, .. } => {
-                let change = next.change_from(&versions[version], *full);
+            HostOp::Apply { next, full, via, .. } => {
+                let change = next.change_from_via(&versions[version], *full, via);
                 host.apply_change(change);
                 version += 1;
             }
@@ -884,13 +920,16 @@ fn check_history(plan: &Plan, versions: &[Workspace], sh: &Shared, stats: &mut R
             if !l.same_answer(&a[i]) {
                 let mut kinds = vec![kind_tag, diff_class(&a[i], l)];
                 if c.version > 0 {
-                    if let Some(HostOp::Apply { kind, .. }) = plan
+                    if let Some(HostOp::Apply { kind, via, .. }) = plan
                         .ops
                         .iter()
                         .filter(|o| matches!(o, HostOp::Apply { .. }))
                         .nth(c.version - 1)
                     {
                         kinds.push(format!("after.{kind}"));
+                        if !via.is_empty() {
+                            kinds.push("batch.same_file_twice".into());
+                        }
                     }
                 }
                 return Some(Violation {
@@ -1062,6 +1101,22 @@ pub fn shrink(plan: &Plan, signature: &str, budget: Duration) -> (Plan, u32) {
                 cand.decisions = Some(d);
                 best = cand;
                 progress = true;
+            }
+        }
+    }
+    // 4b. changes that list a file once only
+    for i in 0..best.ops.len() {
+        if t0.elapsed() >= budget {
+            break;
+        }
+        if matches!(&best.ops[i], HostOp::Apply { via, .. } if !via.is_empty()) {
+            let mut cand = best.clone();
+            if let HostOp::Apply { via, .. } = &mut cand.ops[i] {
+                via.clear();
+            }
+            if let Some(d) = fails(&cand, &mut tries) {
+                cand.decisions = Some(d);
+                best = cand;
             }
         }
     }
